@@ -173,18 +173,19 @@ def run_monitors(traces, props, workdir):
         return list(ex.map(lambda t: run_monitor(t, props, workdir), traces))
 
 
-def model_check(cfgname, workdir, timeout, workers=None, modules=("Raft.tla",), simulate=None, seed=0):
+def model_check(cfgname, workdir, timeout, workers=None, modules=("Raft.tla",), simulate=None, seed=0, module=None):
     """Run a TLC model-checking configuration of the design. Returns dict(states, transitions,
     finished, violated, out)."""
     d = os.path.join(workdir, "mc-" + cfgname)
     if os.path.exists(d):
         shutil.rmtree(d)
-    mods = list(modules) + [cfgname + ".tla", cfgname + ".cfg"]
+    module = module or cfgname
+    mods = list(modules) + [module + ".tla", cfgname + ".cfg"]
     stage_spec(d, mods)
     cmd = tlc_cmd(["-Xmx12g"]) + ["-workers", str(workers or NPROC), "-metadir", os.path.join(d, "md"), "-config", cfgname + ".cfg"]
     if simulate:
         cmd += ["-simulate", simulate, "-seed", str(seed)]
-    cmd += [cfgname + ".tla"]
+    cmd += [module + ".tla"]
     t0 = time.time()
     finished = True
     try:
